@@ -41,7 +41,7 @@ def declare(rep):
 
 
 def in_scope(F, f):
-    return f["file"].endswith("prefix.rs") or F.short_of[f["path"]] == "to_right"
+    return C.in_module(F, f["path"], C.PREFIX_MOD) or F.short_of[f["path"]] == "to_right"
 
 
 def contains_call(node, names):
